@@ -449,7 +449,7 @@ func rollbackStart(trace []string) int64 {
 	wrote := false
 	for i, op := range trace {
 		switch op {
-		case "Create", "Write":
+		case "Create", "Write", "OpenFile", "Rename", "CreateTemp":
 			wrote = true
 		case "Stat", "Open":
 			if wrote {
